@@ -78,7 +78,7 @@ def main():
             pass
     meta["verif_commit"] = sh("git -C %s rev-parse --short HEAD" % ROOT)[1].strip()
     for f in ("patch.diff", "demo.py", "notes.md"):
-        if os.path.exists(os.path.join(src, f)):
+        if os.path.exists(os.path.join(src, f)) and os.path.abspath(src) != os.path.abspath(dst):
             shutil.copy(os.path.join(src, f), os.path.join(dst, f))
     meta["needs_to_manifest"] = "see notes.md"
     meta["ran"] = ["git apply patch.diff (scratch worktree of /repo HEAD)", "pytest tests (558 passed required)",
